@@ -288,6 +288,10 @@ def plan_text(plan):
     lines = ["seed %d" % (plan.get("seed", 1) or 1), "perm %d" % (1 if plan.get("perm") else 0)]
     if plan.get("stdout_fail"):
         lines.append("stdout_fail %d" % plan["stdout_fail"])
+    if plan.get("stdout_sig"):
+        lines.append("stdout_sig 1")
+    if plan.get("mount"):
+        lines.append("mount %s" % plan["mount"])
     for f in plan.get("faults", []):
         parts = ["fault"]
         if f.get("k"):
@@ -536,14 +540,18 @@ def run_breadlog(root, check=False, plan=None, knobs=None, binary=None):
     res.root = root
     t0 = time.monotonic()
     pre = None
-    if knobs.get("inherit_ignored"):
+    if knobs.get("inherit_ignored") or knobs.get("nofile"):
         # started the way a background job of a non-interactive shell, nohup or a supervisor starts it: the stop signals are
-        # inherited as "ignored"
-        sigs = list(knobs["inherit_ignored"])
+        # inherited as "ignored"; "nofile" = a small RLIMIT_NOFILE (descriptors are a bounded resource: what leaks runs out)
+        sigs = list(knobs.get("inherit_ignored") or [])
+        nofile = knobs.get("nofile")
 
         def pre():
             for s in sigs:
                 signal.signal(s, signal.SIG_IGN)
+            if nofile:
+                import resource
+                resource.setrlimit(resource.RLIMIT_NOFILE, (nofile, nofile))
     try:
         p = subprocess.Popen(argv, cwd=cwd, env=env, stdin=subprocess.DEVNULL, stdout=subprocess.PIPE,
                              stderr=subprocess.PIPE, preexec_fn=pre)
